@@ -65,7 +65,7 @@ fn gen_base<T: crate::dgen::Gen>() -> T {
     T::base(crate::dgen::Pos::Xml)
 }
 
-fn hostile_keys() -> Vec<String> {
+fn hostile_keys(tier: crate::common::Tier) -> Vec<String> {
     let seg = ["a", ".", "..", "", "bucket-b", "bucket-a2", "secret", "@META", "%2e%2e", "%2f", "outside", "sentinel.txt"];
     let mut out: Vec<String> = Vec::new();
     let meta_name = format!(".bucket-{}.object-{}.metadata.json", b64("bucket-b"), b64("secret"));
@@ -81,6 +81,19 @@ fn hostile_keys() -> Vec<String> {
             out.push(format!("{}/{}", fix(a), fix(b)));
             for c in seg {
                 out.push(format!("{}/{}/{}", fix(a), fix(b), fix(c)));
+            }
+        }
+    }
+    if tier == crate::common::Tier::Thorough {
+        // all sequences of 4 segments over the traversal core of the alphabet
+        let core = ["a", ".", "..", "", "bucket-b", "%2e%2e", "secret"];
+        for a in core {
+            for b in core {
+                for c in core {
+                    for d in core {
+                        out.push(format!("{a}/{b}/{c}/{d}"));
+                    }
+                }
             }
         }
     }
@@ -268,7 +281,7 @@ fn judge_changes(op: Op, hostile: &str, changes: &[String], upload_id: &str) -> 
 
 pub fn run(ctx: &Ctx) -> (Acc, Report) {
     let mut acc = ctx.acc();
-    let keys = hostile_keys();
+    let keys = hostile_keys(ctx.tier);
     let n_keys = keys.len();
     // upload-id alphabet for the multipart entry points
     let pristine = store();
@@ -398,7 +411,7 @@ pub fn run(ctx: &Ctx) -> (Acc, Report) {
     let concurrent = if ctx.replay.as_deref().is_none_or(|r| r.contains("/schedule=")) { crate::props::c19::cross_object_schedules(&mut acc, "C17") } else { 0 };
     let rep = Report {
         level: "exploration",
-        rule: format!("{n_keys} hostile strings (all sequences of 1..3 segments over {{a, ., .., empty, bucket-b, bucket-a2, secret, the real metadata file name of another bucket's object, %2e%2e, %2f, outside, sentinel.txt}} joined by '/', with and without a leading '/', plus 4 deep escapes) x 18 operations at the S3 trait (object get/head/put/delete/delete-objects/copy source/copy destination/list prefix/create-multipart/upload-part-copy source/put-then-get-then-delete; hostile upload ids for list-parts/complete/abort/upload-part by a foreign identity incl. the victim's real id and its 8-character prefix; hostile bucket names for create/delete/head bucket), and through S3Service::call for GET/PUT/DELETE/copy in literal, fully percent-encoded and %2e%2e spellings; store: three buckets with marked objects and metadata (one sibling's name has the addressed bucket's name as a proper string prefix), one foreign open upload with a marked part, a marked sentinel tree beside and above the root. Oracle: whole-tree snapshot diff + marker search in everything read back. Plus every interleaving of two concurrent writers to different objects (same key in two buckets, same file name in two directories, two keys of one bucket). Distinct by id."),
+        rule: format!("{n_keys} hostile strings (all sequences of 1..3 segments (thorough: also all 4-segment sequences over the 7 core symbols) over {{a, ., .., empty, bucket-b, bucket-a2, secret, the real metadata file name of another bucket's object, %2e%2e, %2f, outside, sentinel.txt}} joined by '/', with and without a leading '/', plus 4 deep escapes) x 18 operations at the S3 trait (object get/head/put/delete/delete-objects/copy source/copy destination/list prefix/create-multipart/upload-part-copy source/put-then-get-then-delete; hostile upload ids for list-parts/complete/abort/upload-part by a foreign identity incl. the victim's real id and its 8-character prefix; hostile bucket names for create/delete/head bucket), and through S3Service::call for GET/PUT/DELETE/copy in literal, fully percent-encoded and %2e%2e spellings; store: three buckets with marked objects and metadata (one sibling's name has the addressed bucket's name as a proper string prefix), one foreign open upload with a marked part, a marked sentinel tree beside and above the root. Oracle: whole-tree snapshot diff + marker search in everything read back. Plus every interleaving of two concurrent writers to different objects (same key in two buckets, same file name in two directories, two keys of one bucket). Distinct by id."),
         exhaustive: true,
         extra: json!({"hostile_strings": n_keys, "concurrent_writer_schedules": concurrent}),
         assumptions: vec!["symbolic links inside the root are not part of the space".into(), "file contents, not mtimes, are compared".into()],
